@@ -17,7 +17,8 @@ ROLLBACK = {"load-mismatch", "storage-slot", "balance", "code"}
 class C09Check(C01Check):
     property_id = "C09"
     name = "c09-engine-sim"
-    rename = {"ENGINE:endstate-mismatch": "C09:frame"}
+    oracle_prefixes = ("ENGINE:endstate-mismatch", "ENGINE:input-uncovered")
+    rename = {"ENGINE:endstate-mismatch": "C09:frame", "ENGINE:input-uncovered": "C09:call-outcome-missing"}
     rule = ("call-tree worlds: up to 3 levels of generated callees called with CALL / STATICCALL / DELEGATECALL / CALLCODE "
             "(concrete and symbolic values and arguments, symbolic targets aliasing deployed accounts), CREATE / CREATE2 of "
             "generated init code; every callee writes storage / transient storage / logs and then ends in return, revert, "
@@ -26,12 +27,20 @@ class C09Check(C01Check):
             "per frame scheme/target/caller/origin/value/static flag/input data, outcome class and return data, every storage "
             "access after a failed frame (rollback), final balances (conservation) and code of all accounts. A mismatch counts "
             "for C09 if it is a context field, a trace-shape / balance / code difference, any difference inside a sub-frame, or a "
-            "storage read after a failed sub-frame. distinct = distinct (world hash, path list, query count); non-trivial = the "
+            "storage read after a failed sub-frame; in addition an input whose reference execution contains a call failing for "
+            "insufficient funds must be contained in a reported path (`C09:call-outcome-missing`). distinct = distinct (world hash, path list, query count); non-trivial = the "
             "reference executed >=1 sub-frame and >=1 (path,input) pair was judged")
     bias = dict(calls=True, creates=None, value_calls=True, storage=True, transient=True, balance_reads=True, n_callees=None)
     kwargs = {"n_sigmas": 5, "check_pruned": False}
 
     def refine(self, v):
+        if v.get("kind") == "uncovered":
+            # "the call fails when the sender's balance is insufficient": an input whose reference execution contains such a
+            # failed call must be in some reported path (the failing outcome may not be dropped, e.g. on a solver `unknown`)
+            if "halt:insufficient" in v.get("ref_errors", []):
+                v["disc"] = "insufficient-funds"
+                return v
+            return None
         kinds = set(v.get("kinds", []))
         if v.get("quirk") and v["quirk"] != "static_value_call_ok":
             return None
